@@ -64,9 +64,17 @@ func c04(args []string) error {
 		}
 		json.Unmarshal(b, &addrs)
 	}
+	flaky := strings.HasPrefix(mode, "flaky+")
+	flakyFile := filepath.Join(dir, "flaky.flag")
+	if _, err := os.Stat(flakyFile); err == nil {
+		flaky = true
+	}
 	run, err := NewRunAt(dir, args[1], 2, addrs, func(c *config.Config) {
 		c.WorkersCount, c.MaxConcurrentAssets = w, 2
 		c.MaxRetry = 0
+		if flaky {
+			c.MaxRetry = 1 // the first attempt of the flaky URL is cut, the retry succeeds
+		}
 	})
 	if err != nil {
 		return err
@@ -88,6 +96,17 @@ func c04(args []string) error {
 		bigStatus, _ = strconv.Atoi(string(b))
 	}
 	seeds := c04site(run.org, n, big, bigStatus)
+	if flaky {
+		// first attempt: the origin holds the answer back until the stop is under way, then cuts the connection
+		mode = strings.TrimPrefix(mode, "flaky+")
+		if phase == "run1" {
+			os.WriteFile(flakyFile, []byte("1"), 0644)
+			run.org.Route(0, "/c04/flaky.bin", origin.Resp{Gate: "held", Drop: true}, okImage(77))
+		} else {
+			run.org.Route(0, "/c04/flaky.bin", okImage(77))
+		}
+		seeds = append([]Seed{{ID: "seed-flaky", Value: run.org.URL(0, "/c04/flaky.bin")}}, seeds...)
+	}
 	run.tr.Emit(map[string]any{"ev": "c04.phase", "phase": phase, "mode": mode, "n": n})
 	if phase == "run1" {
 		b, _ := json.Marshal(run.org.Hosts)
@@ -138,6 +157,9 @@ func c04(args []string) error {
 			case <-time.After(60 * time.Second):
 			}
 			run.tr.Emit(map[string]any{"ev": "graceful.stop"})
+			if flaky {
+				go func() { time.Sleep(1500 * time.Millisecond); run.org.Open("held") }()
+			}
 			run.Stop(60 * time.Second)
 			run.tr.Emit(map[string]any{"ev": "run1.end"})
 			return run.tr.Close()
